@@ -239,11 +239,17 @@ def check_property(prop, tier="quick", only_units=None):
                    verifier_output=f["message"], engine=f.get("engine", "verus"),
                    replay_cmd="%s/check --replay %s" % (VERIF, path))
         wit = None
-        try:
-            import witness
-            wit = witness.find(prop, f)
-        except Exception as e:
-            rep["witness_error"] = repr(e)
+        if (f.get("counterexample") or {}).get("replayed"):
+            # the verifier gave a counterexample and it was replayed on the (extracted) real function
+            wit = f["counterexample"]
+        else:
+            if f.get("counterexample"):
+                rep["unconfirmed_counterexample"] = f["counterexample"]
+            try:
+                import witness
+                wit = witness.find(prop, f)
+            except Exception as e:
+                rep["witness_error"] = repr(e)
         if wit:
             rep["counterexample"] = wit
         else:
@@ -263,13 +269,14 @@ def check_property(prop, tier="quick", only_units=None):
         coverage=dict(
             obligations=obligations, discharged=discharged,
             checker_cmd=" ; ".join(checker_cmds) or "none",
-            trusted_base=sorted(set(assumed)) + ["verus 0.2026.09.13 + z3 (the verifier itself)", "rustlex/gen.py extraction (rules E1-E7)"],
+            trusted_base=sorted(set(assumed)) + ["verus 0.2026.09.13 + z3 (the verifier itself)", "rustlex/gen.py extraction (rules E1-E7)"]
+                         + (["kani 0.68.0 + cbmc 6.11 (engine K: function contracts on loop-free extracted functions; floating point is CBMC's bit-precise IEEE-754 model)"] if (kani or {}).get("units") else []),
             samples=samples[:12] or [dict(note="no tagged obligation in the selected units")],
             explanation=explanation_of(prop),
             functions_under_contract=fns,
             by_backend={"verus-z3": sum(v["discharged"] for v in per_unit.values()), "kani-cbmc": (kani or {}).get("discharged", 0)},
             solver_time_s=round(solver_ms / 1000.0, 3),
-            units=per_unit,
+            units=dict(per_unit, **(kani or {}).get("units", {})),
             bounded=(kani or {}).get("bounded", []),
             extraction_rules=EXTRACTION_RULES,
             extraction_drops=sorted(set(drops)),
@@ -285,7 +292,7 @@ def check_property(prop, tier="quick", only_units=None):
     os.makedirs(EVID, exist_ok=True)
     json.dump(ev, open(os.path.join(EVID, prop + ".json"), "w"), indent=1)
     print("%s: %d/%d obligations discharged over %d unit(s) in %.1fs%s" % (
-        prop, discharged, obligations, len(results), time.time() - t0,
+        prop, discharged, obligations, len(results) + len((kani or {}).get("units", {})), time.time() - t0,
         "" if not undecided else " [UNDECIDED: %d]" % len(undecided)))
     if violations:
         return 1
